@@ -107,6 +107,7 @@ type c10Call struct {
 	NewTask    string   `json:"new_task,omitempty"`
 	Principal  string   `json:"principal,omitempty"`
 	Subject    string   `json:"subject,omitempty"`
+	Stage      uint64   `json:"stage,omitempty"`
 	Feeder     uint64   `json:"feeder,omitempty"`
 	Nonce      uint64   `json:"nonce,omitempty"`
 	Auth       *c10Auth `json:"auth,omitempty"`
@@ -171,7 +172,7 @@ func (c c10Call) coq() string {
 		return cApp("CallEvm", c.EP, cStr(c.Caller), cBool(c.IsContract), cStr(c.Origin), cStr(c.Sender),
 			c10StrList(c.NewOwners), cStr(c.NewTask), cBool(c.BizOK))
 	case "tx":
-		return cApp("CallTx", c.EP, cStr(c.Principal), cStr(c.Subject), cN(c.Feeder), cN(c.Nonce), c.Auth.coq(),
+		return cApp("CallTx", c.EP, cStr(c.Principal), cStr(c.Subject), cN(c.Stage), cN(c.Feeder), cN(c.Nonce), c.Auth.coq(),
 			cStr(c.NewGateway), cBool(c.BizOK))
 	default:
 		return cApp("CallGov", c.EP, cStr(c.NewGateway), cBool(c.BizOK))
@@ -206,6 +207,8 @@ type c10World struct {
 	stakerAcc                                                        int
 	genesisOpAcc                                                     int // genesis operator 0 (validator), with an account
 	quickMatrix                                                      bool
+	malformed                                                        bool              // payload builders produce a payload the business logic refuses
+	cov                                                              map[string][2]int // per entry point: accepted, rejected
 	govAddr                                                          sdk.AccAddress
 	dogfoodAvs                                                       string
 
@@ -222,6 +225,7 @@ type c10World struct {
 type blstKey struct {
 	pub, sig []byte
 	hash     [32]byte
+	sign     func(msg []byte) []byte
 }
 
 func c10Hex(a common.Address) string  { return strings.ToLower(a.Hex()) }
@@ -564,6 +568,22 @@ func (w *c10World) finish(cw *CaseWriter, ctx sdk.Context, st c10State, call c10
 	k := c10Case{State: st, Call: call, Obs: obs, Tags: tags, NT: res == "ok" || obs.ModulesChanged}
 	cw.Add(k.coq(), k)
 	cw.Count("ep:" + call.EP)
+	// coverage matrix: entry point x caller class x accepted/rejected
+	ar := "rejected"
+	if res == "ok" {
+		ar = "accepted"
+	}
+	cw.Count("cov:" + call.EP + "|" + call.Class + "|" + ar)
+	if w.cov == nil {
+		w.cov = map[string][2]int{}
+	}
+	c := w.cov[call.EP]
+	if res == "ok" {
+		c[0]++
+	} else {
+		c[1]++
+	}
+	w.cov[call.EP] = c
 	cw.Count("class:" + call.Class)
 	cw.Count("result:" + res)
 	cw.Count("kind:" + call.Kind + "/" + res)
@@ -742,6 +762,7 @@ func c10NewWorld(a *Args) *c10World {
 	w.blsKey.hash = sha256.Sum256([]byte("c10 bls registration"))
 	w.blsKey.pub = sk.PublicKey().Marshal()
 	w.blsKey.sig = sk.Sign(w.blsKey.hash[:]).Marshal()
+	w.blsKey.sign = func(msg []byte) []byte { return sk.Sign(msg).Marshal() }
 	return w
 }
 
